@@ -87,7 +87,7 @@ class WidthCase(base.CaseBase):
                 try:
                     need, forced_seen, later = refsem.flat_lookahead(
                         refsem.rest_to_list((ind, F, s[1]), rest), w, min_nesting,
-                        smart, leaves, offs)
+                        smart, leaves, offs, start_col=c)
                 except refsem.Unmodelled:
                     return True
                 if forced_seen:
